@@ -1,3 +1,4 @@
 import Driver.Util
 import Driver.Mgr
+import Driver.Gossip
 import Driver.Main
